@@ -44,6 +44,12 @@ def _case(draw):
         cfg["options"]["store_labels"] = True
     if d.chance(0.3):
         cfg["options"]["inline_definitions"] = True
+    if d.chance(0.06):
+        # levels are then not recomputed after delimiter processing: the stream is still correctly nested, and every
+        # clause of this property (serialisation, tree by nesting, repeatable rendering) holds for it on the unchanged tree
+        cfg["disable"] = list(cfg["disable"]) + ["fragments_join"]
+        if d.chance(0.7):
+            src = "".join(gen.tight_nest(d) + d.pick(["", " "]) for _ in range(d.i(1, 3))) + "\n"
     return {"src": src, "cfg": cfg}
 
 
